@@ -1,4 +1,4 @@
-"""C01 private helper: two further strata of the domain check.
+"""C01 private helper: three further strata of the domain check.
 
 * stratum ``arrays``: the ndarray *value family* the shared lattice does not reach (arrays in the
   non-native byte order obtained three ways, declared non-native dtypes, strided / transposed /
@@ -15,6 +15,11 @@
   class trait, an instance trait (add_trait) shadowing it, an instance-only trait, a subclass
   override, a listener-made clone, a delegate swapped in after the first read, a shadow added and
   removed again.
+
+* stratum ``deepconv`` (end of the file): converting members two or more trait levels deep (Tuple in
+  Tuple / Union / Either / List / Dict / Set, ValidatedTuple) against values built from the
+  declaration that need an equal-valued conversion exactly at the inner level; the readback is
+  compared exact-type-first at every depth.
 
 Nothing here reads the library's source or keys on library-internal names.
 """
@@ -739,6 +744,618 @@ def run_deferred(ctx, base_index):
                                 break
                 if serial % 41 == 0:
                     ctx.sample({"stratum": "deferred", "spec": name, "values": len(dis) + len(rest), "routes": 3})
+            finally:
+                ctx.end()
+    return idx
+
+
+# =============================================================================================
+# stratum "deepconv"
+# =============================================================================================
+# A CONVERTING member (Float <- int/bool/numpy scalar, Int <- bool/numpy integer/__index__,
+# Complex <- float, Range, the C* casts, Bool <- numpy bool, PrefixList completion, String <- number)
+# sitting two or more trait levels deep: Tuple in Tuple, Tuple in Union / Either, Tuple as List item /
+# Dict key / Dict value / Set item, ValidatedTuple around and inside Tuple, Union / Either / List as a
+# Tuple item -- and values built FROM THE SPEC, so that every declaration meets values that fit its
+# shape and need a conversion exactly at the inner level: all items already exact (identity path),
+# every item an equal-valued value of another type (1 for 1.0, True for 1, np.float64(0.5) for 0.5),
+# one single inner item of that kind among exact ones, an inner conversion to a non-equal value,
+# conversions at the outer level only, one invalid / protocol-raising item at depth, a wrong inner
+# shape, tuple subclasses as inner containers, one inner tuple object used in two places.  The
+# readback is judged by the structural matchers of vf/reference.py, which compare with `same` (exact
+# type first) at every depth: (1, 2) is NOT an acceptable stored value where (1.0, 2.0) is documented.
+from traits.api import (    # noqa: E402
+    ValidatedTuple, Set, Complex, BaseFloat, BaseInt, CFloat, CStr, CBool, CComplex, PrefixList, Bytes,
+)
+from vf.lattice import T as TupleSub, NT as NamedPair    # noqa: E402
+
+DEEP_PREDS = {"true": (lambda t: True), "first!=last": (lambda t: t[0] != t[-1])}
+
+
+def deep_leaves():
+    """name -> (name, kind, thunk, ref, converting)."""
+    L = {}
+
+    def add(name, kind, thunk, ref, conv):
+        L[name] = (name, kind, thunk, ref, conv)
+    add("Float", "Float", lambda: Float(), rf.ref_float, True)
+    add("BaseFloat", "Float", lambda: BaseFloat(), rf.ref_float, True)
+    add("Int", "Int", lambda: Int(), rf.ref_int, True)
+    add("BaseInt", "Int", lambda: BaseInt(), rf.ref_int, True)
+    add("Complex", "Complex", lambda: Complex(), rf.ref_complex, True)
+    add("Bool", "Bool", lambda: Bool(), rf.ref_bool, True)
+    add("Range(0.0,10.0)", "Range.float", lambda: Range(0.0, 10.0), rf.ref_range_float(0.0, 10.0, False, False), True)
+    add("Range(0,10)", "Range.int", lambda: Range(0, 10), rf.ref_range_int(0, 10), True)
+    add("CInt", "CInt", lambda: CInt(), rf.ref_cast(int, (ValueError, TypeError)), True)
+    add("CFloat", "CFloat", lambda: CFloat(), rf.ref_cast(float, (ValueError, TypeError)), True)
+    add("CComplex", "CComplex", lambda: CComplex(), rf.ref_cast(complex, (ValueError, TypeError)), True)
+    add("CStr", "CStr", lambda: CStr(), rf.ref_cast(str, Exception), True)
+    add("CBool", "CBool", lambda: CBool(), rf.ref_cast(bool, Exception), True)
+    add("PrefixList", "PrefixList", lambda: PrefixList(["yes", "no", "yellow"]),
+        rf.ref_prefixlist(["yes", "no", "yellow"]), True)
+    add("String(1,3)", "String", lambda: String("a", minlen=1, maxlen=3), rf.ref_string(1, 3, ""), True)
+    add("Str", "Str", lambda: Str(), rf.ref_isinstance(str), False)
+    add("Bytes", "Bytes", lambda: Bytes(), rf.ref_isinstance(bytes), False)
+    add("Enum('yes','no')", "Enum", lambda: Enum("yes", "no"), rf.ref_enum(("yes", "no")), False)
+    add("Instance(Plain)", "Instance", lambda: Instance(Plain), rf.ref_instance(Plain, True), False)
+    return L
+
+
+class DN:
+    """Node of a declaration tree."""
+    __slots__ = ("kind", "kids", "leaf", "pred")
+
+    def __init__(self, kind, kids=(), leaf=None, pred=None):
+        self.kind, self.kids, self.leaf, self.pred = kind, list(kids), leaf, pred
+
+
+def dn_name(n):
+    k = n.kind
+    if k == "leaf":
+        return n.leaf[0]
+    if k == "None":
+        return "None"
+    inner = ",".join(dn_name(c) for c in n.kids)
+    if k == "ValidatedTuple":
+        return "ValidatedTuple(%s,%s)" % (inner, n.pred)
+    return "%s(%s)" % (k, inner)
+
+
+def dn_trait(n):
+    k = n.kind
+    if k == "leaf":
+        return n.leaf[2]()
+    if k == "None":
+        return None
+    kids = [dn_trait(c) for c in n.kids]
+    if k == "Tuple":
+        return Tuple(*kids)
+    if k == "ValidatedTuple":
+        return ValidatedTuple(*kids, fvalidate=DEEP_PREDS[n.pred])
+    if k == "Union":
+        return Union(*kids)
+    if k == "Either":
+        return Either(*kids)
+    if k == "List":
+        return List(kids[0])
+    if k == "Set":
+        return Set(kids[0])
+    return Dict(kids[0], kids[1])
+
+
+def dn_conv(n):
+    """Canonical documented conversion (only for the deterministic trees under a ValidatedTuple:
+    leaves, Tuple, ValidatedTuple)."""
+    if n.kind == "leaf":
+        ref = n.leaf[3]
+        return lambda v: ref(v).accepts[0]
+    convs = [dn_conv(c) for c in n.kids]
+    vt = n.kind == "ValidatedTuple"
+
+    def f(v):
+        if vt and isinstance(v, list):
+            v = tuple(v)
+        return tuple(c(x) for c, x in zip(convs, v))
+    return f
+
+
+def ref_validated_tuple(members, convs, pred):
+    """ValidatedTuple(*members, fvalidate=pred): the members are validated first, then the predicate
+    judges the tuple of the CONVERTED members; the stored value is an exact tuple of the members'
+    conversions."""
+    def f(v):
+        if isinstance(v, list):
+            v = tuple(v)        # the Python tuple validator takes a list as the tuple of its items
+        if not isinstance(v, tuple) or len(v) != len(members):
+            return REJ
+        rs = [m(x) for m, x in zip(members, v)]
+        passes = set()
+        for r in rs:
+            passes |= r.passes
+        if not all(r.acceptable() for r in rs):
+            return R([], True, passes)
+        try:
+            ok = bool(pred(tuple(c(x) for c, x in zip(convs, v))))
+        except Exception:
+            ok = False
+        if not ok:
+            return R([], True, passes)
+
+        def matcher(s):
+            return type(s) is tuple and len(s) == len(rs) and all(r.matches(e) for r, e in zip(rs, s))
+        return R([], any(r.rej for r in rs), passes, matcher)
+    return f
+
+
+def dn_ref(n):
+    k = n.kind
+    if k == "leaf":
+        return n.leaf[3]
+    if k == "None":
+        return rf.ref_none
+    kids = [dn_ref(c) for c in n.kids]
+    if k == "Tuple":
+        return rf.ref_tuple(*kids)
+    if k == "ValidatedTuple":
+        return ref_validated_tuple(kids, [dn_conv(c) for c in n.kids], DEEP_PREDS[n.pred])
+    if k in ("Union", "Either"):
+        return rf.ref_union(*kids)
+    if k == "List":
+        return rf.ref_list(kids[0])
+    if k == "Set":
+        return rf.ref_set(kids[0])
+    return rf.ref_dict(kids[0], kids[1])
+
+
+def dn_deepest(n):
+    """-> (depth, path of container kinds, leaf kind) of the deepest converting leaf, or None."""
+    best = None
+
+    def walk(m, path):
+        nonlocal best
+        if m.kind == "leaf":
+            if m.leaf[4] and (best is None or len(path) > best[0]):
+                best = (len(path), list(path), m.leaf[1])
+            return
+        for c in m.kids:
+            walk(c, path + [m.kind])
+    walk(n, [])
+    return best
+
+
+def dn_has_tuple(n):
+    return n.kind in ("Tuple", "ValidatedTuple") or any(dn_has_tuple(c) for c in n.kids)
+
+
+def deep_chains():
+    """Covering part: name -> builder(a, b, s) of a declaration tree around the leaves a (converting),
+    b (its partner) and s (a non-converting one)."""
+    def lf(x):
+        return DN("leaf", leaf=x)
+
+    def P(a, b):
+        return DN("Tuple", [lf(a), lf(b)])
+    none = DN("None")
+    C = {}
+    C["Tuple(P,P,s)"] = lambda a, b, s: DN("Tuple", [P(a, b), P(a, b), lf(s)])
+    C["Tuple(P,a)"] = lambda a, b, s: DN("Tuple", [P(a, b), lf(a)])
+    C["Tuple(Tuple(P,s),a)"] = lambda a, b, s: DN("Tuple", [DN("Tuple", [P(a, b), lf(s)]), lf(a)])
+    C["Tuple(Tuple(a))"] = lambda a, b, s: DN("Tuple", [DN("Tuple", [lf(a)])])
+    C["Union(None,Tuple(P,s))"] = lambda a, b, s: DN("Union", [none, DN("Tuple", [P(a, b), lf(s)])])
+    C["Union(Tuple(P,P),s)"] = lambda a, b, s: DN("Union", [DN("Tuple", [P(a, b), P(a, b)]), lf(s)])
+    C["Union(None,P)"] = lambda a, b, s: DN("Union", [none, P(a, b)])
+    C["Either(Tuple(P,s),None)"] = lambda a, b, s: DN("Either", [DN("Tuple", [P(a, b), lf(s)]), none])
+    C["Either(s,Tuple(P,P))"] = lambda a, b, s: DN("Either", [lf(s), DN("Tuple", [P(a, b), P(a, b)])])
+    C["List(Tuple(P,s))"] = lambda a, b, s: DN("List", [DN("Tuple", [P(a, b), lf(s)])])
+    C["List(P)"] = lambda a, b, s: DN("List", [P(a, b)])
+    C["Dict(s,Tuple(P,a))"] = lambda a, b, s: DN("Dict", [lf(s), DN("Tuple", [P(a, b), lf(a)])])
+    C["Dict(P,P)"] = lambda a, b, s: DN("Dict", [P(a, b), P(a, b)])
+    C["Set(Tuple(P,s))"] = lambda a, b, s: DN("Set", [DN("Tuple", [P(a, b), lf(s)])])
+    C["ValidatedTuple(P,P)"] = lambda a, b, s: DN("ValidatedTuple", [P(a, b), P(a, b)], pred="first!=last")
+    C["Tuple(ValidatedTuple(a,b),s)"] = lambda a, b, s: DN(
+        "Tuple", [DN("ValidatedTuple", [lf(a), lf(b)], pred="true"), lf(s)])
+    C["ValidatedTuple(ValidatedTuple(a,b),P)"] = lambda a, b, s: DN(
+        "ValidatedTuple", [DN("ValidatedTuple", [lf(a), lf(b)], pred="first!=last"), P(a, b)], pred="true")
+    C["Tuple(List(P),a)"] = lambda a, b, s: DN("Tuple", [DN("List", [P(a, b)]), lf(a)])
+    C["Union(List(P),P)"] = lambda a, b, s: DN("Union", [DN("List", [P(a, b)]), P(a, b)])
+    C["Tuple(Union(None,P),s)"] = lambda a, b, s: DN("Tuple", [DN("Union", [none, P(a, b)]), lf(s)])
+    C["Tuple(Either(P,None),a)"] = lambda a, b, s: DN("Tuple", [DN("Either", [P(a, b), none]), lf(a)])
+    C["Tuple(Dict(s,P),s)"] = lambda a, b, s: DN("Tuple", [DN("Dict", [lf(s), P(a, b)]), lf(s)])
+    return C
+
+
+def gen_deep(rng, leaves, maxdepth):
+    """A random declaration tree with a converting leaf at depth >= 2 and a Tuple somewhere."""
+    conv = [nm for nm in leaves if leaves[nm][4]]
+    other = [nm for nm in leaves if not leaves[nm][4]]
+
+    def leaf():
+        return DN("leaf", leaf=leaves[rng.choice(conv if rng.random() < 0.7 else other)])
+
+    def sub(d, mode):
+        # mode: "any" | "det" (under a ValidatedTuple: Tuple / ValidatedTuple / leaf) | "hash"
+        # (Dict key / Set item: Tuple / leaf)
+        if d <= 0 or rng.random() < 0.25:
+            return leaf()
+        if mode == "hash":
+            c = "Tuple"
+        elif mode == "det":
+            c = rng.choice(("Tuple", "Tuple", "ValidatedTuple"))
+        else:
+            c = rng.choice(("Tuple", "Tuple", "Tuple", "ValidatedTuple", "Union", "Either", "List", "Dict", "Set"))
+        if c == "Tuple":
+            return DN("Tuple", [sub(d - 1, mode) for _ in range(rng.randint(1, 3))])
+        if c == "ValidatedTuple":
+            return DN("ValidatedTuple", [sub(d - 1, "det") for _ in range(rng.randint(2, 3))],
+                      pred=rng.choice(sorted(DEEP_PREDS)))
+        if c in ("Union", "Either"):
+            kids = [sub(d - 1, mode) for _ in range(rng.randint(1, 2))]
+            r = rng.random()
+            if r < 0.4:
+                kids.insert(rng.randrange(len(kids) + 1), DN("None"))
+            elif r < 0.7 or len(kids) < 2:
+                kids.insert(rng.randrange(len(kids) + 1), leaf())
+            return DN(c, kids)
+        if c == "List":
+            return DN("List", [sub(d - 1, mode)])
+        if c == "Set":
+            return DN("Set", [sub(min(d - 1, 2), "hash")])
+        return DN("Dict", [sub(min(d - 1, 1), "hash"), sub(d - 1, mode)])
+    for _ in range(200):
+        n = sub(maxdepth, "any")
+        if n.kind == "leaf" or not dn_has_tuple(n):
+            continue
+        best = dn_deepest(n)
+        if best is not None and best[0] >= 2:
+            return n
+    a = leaves["Float"]
+    return DN("Tuple", [DN("Tuple", [DN("leaf", leaf=a), DN("leaf", leaf=a)])])
+
+
+def _hashable(v):
+    try:
+        hash(v)
+        return True
+    except Exception:
+        return False
+
+
+def deep_classify(ref, pool):
+    """Lattice items by what the leaf's reference says about them: exact (stored as is), equal
+    (converted to an ==-equal value that is not `same`: another type), nonequal (converted to a
+    different value), invalid, pass (the value's own conversion protocol raises)."""
+    cats = {"exact": [], "equal": [], "nonequal": [], "invalid": [], "pass": []}
+    for item in pool:
+        v = item[2]
+        try:
+            r = ref(v)
+        except Exception:
+            continue
+        if r.accepts:
+            a = r.accepts[0]
+            if a is v or same(v, a):
+                cats["exact"].append(item)
+                continue
+            try:
+                eq = bool(v == a) and not isinstance(v, np.ndarray)
+            except Exception:
+                eq = False
+            cats["equal" if eq else "nonequal"].append(item)
+        elif r.passes:
+            cats["pass"].append(item)
+        elif r.matcher is None:
+            cats["invalid"].append(item)
+    return cats
+
+
+class _Unrealisable(Exception):
+    pass
+
+
+def deep_skeleton(n, rng, depth, slots, tuples, under_vt=False, need_hash=False):
+    k = n.kind
+    if k == "leaf":
+        slots.append([n.leaf, depth, need_hash, None, None])
+        return ("leaf", len(slots) - 1)
+    if k == "None":
+        return ("const", None)
+    if k in ("Tuple", "ValidatedTuple"):
+        vt = under_vt or k == "ValidatedTuple"
+        node = ["T", [deep_skeleton(c, rng, depth + 1, slots, tuples, vt, need_hash) for c in n.kids],
+                [dn_name(c) for c in n.kids], depth, under_vt, None]
+        tuples.append(node)
+        return node
+    if k in ("Union", "Either"):
+        big = [c for c in n.kids if c.kind not in ("leaf", "None")]
+        c = rng.choice(big) if big and rng.random() < 0.85 else rng.choice(n.kids)
+        return deep_skeleton(c, rng, depth + 1, slots, tuples, under_vt, need_hash)
+    if k == "List":
+        m = rng.choice((1, 1, 2, 2, 3, 0))
+        return ("L", [deep_skeleton(n.kids[0], rng, depth + 1, slots, tuples, under_vt, need_hash)
+                      for _ in range(m)])
+    if k == "Set":
+        # two items only when nothing in them converts (two converted items may collapse into one)
+        m = rng.choice((1, 1, 2)) if dn_deepest(n.kids[0]) is None else 1
+        return ("S", [deep_skeleton(n.kids[0], rng, depth + 1, slots, tuples, under_vt, True) for _ in range(m)])
+    # Dict: one entry unless the key is a plain non-converting leaf (two converted keys may collide)
+    kn = n.kids[0]
+    m = rng.choice((1, 2)) if (kn.kind == "leaf" and not kn.leaf[4]) else 1
+    return ("D", [(deep_skeleton(kn, rng, depth + 1, slots, tuples, under_vt, True),
+                   deep_skeleton(n.kids[1], rng, depth + 1, slots, tuples, under_vt, need_hash))
+                  for _ in range(m)])
+
+
+def deep_build(sk, slots, alias):
+    t = sk[0]
+    if t == "leaf":
+        return slots[sk[1]][3][2]
+    if t == "const":
+        return sk[1]
+    if t == "T":
+        vals = []
+        names = sk[2]
+        for i, kid in enumerate(sk[1]):
+            if alias and kid[0] == "T" and names[i] in names[:i]:
+                vals.append(vals[names.index(names[i])])
+            else:
+                vals.append(deep_build(kid, slots, alias))
+        defect = sk[5]
+        if defect == "short":
+            return tuple(vals[:-1])
+        if defect == "long":
+            return tuple(vals) + (vals[-1],)
+        if defect == "list":
+            return list(vals)
+        if defect == "none":
+            return None
+        if defect == "scalar":
+            return vals[0]
+        if defect == "T":
+            return TupleSub(vals)
+        if defect == "NT":
+            return NamedPair(*vals) if len(vals) == 2 else TupleSub(vals)
+        return tuple(vals)
+    if t == "L":
+        return [deep_build(k, slots, alias) for k in sk[1]]
+    if t == "S":
+        return set(deep_build(k, slots, alias) for k in sk[1])
+    return {deep_build(k, slots, alias): deep_build(v, slots, alias) for k, v in sk[1]}
+
+
+DEEP_PATTERNS = (
+    # name, category of deep slots (depth >= 2), of shallow slots, single?, tuple defect, alias
+    ("all-exact", "exact", "exact", False, None, False),
+    ("all-equal-convert", "equal", "equal", False, None, False),
+    ("deep-equal-convert", "equal", "exact", False, None, False),
+    ("one-deep-equal-convert", "equal", "exact", True, None, False),
+    ("one-deep-nonequal-convert", "nonequal", "exact", True, None, False),
+    ("shallow-equal-convert", "exact", "equal", False, None, False),
+    ("mixed", "mixed", "mixed", False, None, False),
+    ("one-deep-invalid", "invalid", "mixed", True, None, False),
+    ("one-deep-passthrough", "pass", "exact", True, None, False),
+    ("inner-shape", "mixed", "mixed", False, "shape", False),
+    ("inner-subclass", "equal", "exact", False, "sub", False),
+    ("inner-subclass-exact", "exact", "exact", False, "sub", False),
+    ("aliased-inner", "equal", "exact", False, None, True),
+)
+
+
+def deep_value(node, rng, pools, pattern):
+    """-> (value, vclass, has_deep_equal) or raises _Unrealisable."""
+    pname, deepcat, shallowcat, single, defect, alias = pattern
+    slots, tuples = [], []
+    sk = deep_skeleton(node, rng, 0, slots, tuples)
+    deep = [i for i, s in enumerate(slots) if s[1] >= 2 and s[0][4]]
+    if not deep:
+        raise _Unrealisable()
+    target = rng.choice(deep) if single else None
+    if pname == "shallow-equal-convert" and not any(s[1] < 2 and s[0][4] for s in slots):
+        raise _Unrealisable()
+    label = None
+    has_deep_equal = False
+    for i, s in enumerate(slots):
+        isdeep = s[1] >= 2
+        if single:
+            cat = deepcat if i == target else ("exact" if shallowcat == "exact" else "mixed")
+        else:
+            cat = deepcat if isdeep else shallowcat
+        if cat == "mixed":
+            cat = rng.choice(("exact", "exact", "equal", "equal", "nonequal"))
+        cands = pools[s[0][0]][cat]
+        if s[2]:
+            cands = [it for it in cands if _hashable(it[2])]
+        if not cands:
+            if single and i == target:
+                raise _Unrealisable()
+            cat = "exact"
+            cands = [it for it in pools[s[0][0]]["exact"] if not s[2] or _hashable(it[2])]
+            if not cands:
+                raise _Unrealisable()
+        s[3] = rng.choice(cands)
+        s[4] = cat
+        if isdeep and cat == "equal":
+            has_deep_equal = True
+        if (i == target) or (label is None and not single and isdeep and s[0][4] and cat != "exact"):
+            label = s[3][1]
+    if defect:
+        inner = [t for t in tuples if t[3] >= 1]
+        if not inner:
+            raise _Unrealisable()
+        t = rng.choice(inner)
+        if defect == "shape":
+            modes = ["short", "long", "none", "scalar"] + ([] if t[4] else ["list"])
+            t[5] = rng.choice(modes)
+            label = t[5]
+        else:
+            t[5] = rng.choice(("T", "NT"))
+            label = "tuple-subclass"
+    if alias:
+        if not any(len(set(t[2])) < len(t[2]) and any(k[0] == "T" for k in t[1]) for t in tuples):
+            raise _Unrealisable()
+    try:
+        v = deep_build(sk, slots, alias)
+    except TypeError:
+        raise _Unrealisable()
+    return v, "%s:%s" % (pname, label or "-"), has_deep_equal
+
+
+def deep_good_value(node, rng, pools):
+    return deep_value(node, rng, pools, DEEP_PATTERNS[0])[0]
+
+
+def deep_reject_after_valid(ctx, name, kind, K, good, vid, vclass, bad, route):
+    """A rejected assignment over a previously ASSIGNED (not default) deep value leaves it alone."""
+    o = K()
+    if attempt(lambda: setattr(o, "x", good))[0] != "ok":
+        return None
+    try:
+        before = o.x
+        before_other = o.other
+    except Exception:
+        return None
+    keys = set(o.__dict__)
+    ctx.ev()
+    if route == "setattr":
+        out = attempt(lambda: setattr(o, "x", bad))
+    else:
+        out = attempt(lambda: o.trait_set(x=bad))
+    if out[0] == "ok":
+        return None         # judged by the main oracle
+    ctx.count("deep_reject_after_valid")
+    complaint = None
+    try:
+        now = o.x
+        if now is not before and not same(now, before):
+            complaint = "attribute-changed-on-failure"
+        elif o.other is not before_other:
+            complaint = "other-attribute-changed-on-failure"
+        elif set(o.__dict__) != keys:
+            complaint = "dict-keys-changed-on-failure"
+    except Exception:
+        complaint = "unreadable-after-failure"
+    if complaint:
+        ctx.violation("%s/%s/%s" % (complaint, kind, vclass),
+                      "%s: spec %s holding an assigned value %s <- %s (%s) via %s: %s"
+                      % (complaint, name, short(good, 60), vid, short(bad, 60), route, short(out[1], 160)),
+                      {"spec": name, "value_id": vid, "route": route, "outcome": out[0], "prior": "assigned"})
+    return complaint
+
+
+def deep_specs(ctx, leaves):
+    """-> list of (name, kind, node).  Covering part: every chain, each with converting leaves
+    rotated so that every run sees every chain and every converting leaf kind; then random trees."""
+    rng = ctx.rng("deepconv", "specs")
+    chains = deep_chains()
+    conv = [nm for nm in leaves if leaves[nm][4]]
+    other = [nm for nm in leaves if not leaves[nm][4]]
+    out = []
+    per_chain = ctx.scale(3, len(conv))
+    off = rng.randrange(len(conv))
+    for ci, cname in enumerate(sorted(chains)):
+        if per_chain >= len(conv):
+            picks = list(conv)
+        else:
+            picks = [conv[(off + ci * per_chain + j) % len(conv)] for j in range(per_chain)]
+        for j, a in enumerate(picks):
+            b = a if (ci + j) % 2 == 0 else rng.choice(conv)
+            s = "Str" if (ci + j) % 3 else rng.choice(other)
+            node = chains[cname](leaves[a], leaves[b], leaves[s])
+            out.append(node)
+    nrand = ctx.scale(60, 1500)
+    depth = ctx.scale(3, 4)
+    for i in range(nrand):
+        out.append(gen_deep(ctx.rng("deepconv", "tree", i), leaves, depth))
+    res = []
+    for node in out:
+        best = dn_deepest(node)
+        kind = "deep:%s>%s" % (">".join(best[1]), best[2])
+        res.append((dn_name(node), kind, node))
+    return res
+
+
+def run_deepconv(ctx, judge, base_index):
+    leaves = deep_leaves()
+    specs = deep_specs(ctx, leaves)
+    draws = ctx.scale(3, 6)
+    idx = base_index
+    with warnings.catch_warnings(), np.errstate(all="ignore"):
+        warnings.simplefilter("ignore")
+        for si, (name, kind, node) in enumerate(specs):
+            idx += 1
+            if not ctx.mine(idx):
+                continue
+            if not ctx.begin("deepconv:%d:%s" % (si, name[:90])):
+                continue
+            try:
+                try:
+                    K = MetaHasTraits("DC%d" % si, (HasTraits,), {"x": dn_trait(node), "other": Int(3)})
+                    ref = dn_ref(node)
+                except Exception:
+                    ctx.count("spec_construction_failed")
+                    continue
+                ctx.count("deep_specs")
+                pool = lattice(extra_floats=(-1.5,))
+                pools = {}
+
+                def collect(m):
+                    if m.kind == "leaf" and m.leaf[0] not in pools:
+                        pools[m.leaf[0]] = deep_classify(m.leaf[3], pool)
+                    for c in m.kids:
+                        collect(c)
+                collect(node)
+                rng = ctx.rng("deepconv", "vals", si)
+                nbad = 0
+                k = 0
+                for pattern in DEEP_PATTERNS:
+                    for d in range(draws):
+                        try:
+                            v, vclass, has_deep_equal = deep_value(node, rng, pools, pattern)
+                        except _Unrealisable:
+                            ctx.count("deep_unrealisable")
+                            continue
+                        try:
+                            r = ref(v)
+                        except Exception:
+                            ctx.count("reference_crashes")
+                            continue
+                        k += 1
+                        vid = "%s#%d" % (vclass, d)
+                        ctx.count("deep_judgements")
+                        # the oracle must be able to tell the assigned value from its documented
+                        # conversion: where an equal-valued conversion is due at depth, the value AS
+                        # ASSIGNED is not an acceptable stored value (it is when the slot vanished with
+                        # a shape defect or another Union member takes the value as it is)
+                        needs_conv = has_deep_equal and r.acceptable() and not r.matches(v)
+                        if has_deep_equal and r.acceptable() and not needs_conv:
+                            ctx.count("deep_equal_not_needed")
+                        c = judge(ctx, name, kind, K, ref, vid, vclass, v)
+                        if c:
+                            nbad += 1
+                            if nbad >= 4:
+                                break
+                            continue
+                        if r.acceptable():
+                            ctx.count("deep_accepted")
+                            if needs_conv:
+                                ctx.count("deep_equal_converted_accepted")
+                            if pattern[0] == "all-exact":
+                                ctx.count("deep_identity_accepted")
+                            if pattern[4] == "sub":
+                                ctx.count("deep_subclass_accepted")
+                        else:
+                            ctx.count("deep_rejected")
+                            if not r.passes:
+                                try:
+                                    good = deep_good_value(node, rng, pools)
+                                except _Unrealisable:
+                                    continue
+                                if deep_reject_after_valid(ctx, name, kind, K, good, vid, vclass, v,
+                                                           "setattr" if k % 2 else "trait_set"):
+                                    nbad += 1
+                    if nbad >= 4:
+                        break
+                if si % 23 == 0:
+                    ctx.sample({"stratum": "deepconv", "spec": name, "values": k, "routes": 3})
             finally:
                 ctx.end()
     return idx
